@@ -142,7 +142,7 @@ def scripts(ctx):
     for np_ in range(1, maxp + 1):
         for sizes in itertools.product((0, 1, 2), repeat=np_):
             out.append(sizes)
-    for _ in range(150 if quick else 1500):
+    for _ in range(90 if quick else 1500):
         np_ = ctx.rng.randint(4 if quick else 6, 8)
         out.append(tuple(ctx.rng.choice((0, 0, 1, 2, 3)) for _ in range(np_)))
     # boundary: all empty, long runs of empty pages, one big page
@@ -171,7 +171,7 @@ def run(ctx):
                 'waits; non-trivial = distinct (script, ops) with >= 2 pages' % maxp)
     cases, meta = [], []
     todo = list(corpus)
-    nrandom = 6 if ctx.tier == 'quick' else 10
+    nrandom = 4 if ctx.tier == 'quick' else 10
     for sizes in ss:
         pages = mk_pages(sizes)
         for name, ops in patterns(pages, ctx.rng, nrandom):
